@@ -151,7 +151,11 @@ def impl(case):
         dump_direct = H.dump(d)
         d.close()
 
-        s = IH5MFRecord(Path(stub_dir) / "rec", "r+")
+        try:
+            s = IH5MFRecord(Path(stub_dir) / "rec", "r+")
+        except Exception as e:  # noqa: BLE001
+            oracle.append(dict(kind="stub-cannot-be-opened-for-patching", error="%s: %s" % (type(e).__name__, str(e)[:160])))
+            return dict(out=out, oracle=oracle, tags=tags, partial=True)
         out_stub = [H.apply_op(s, op) for op in upd]
         s.commit_patch()
         stub_patch = str(s.ih5_files[-1])
@@ -229,6 +233,22 @@ def gen_cases(ctx):
     cases = []
     for i in range(n):
         ops = []
+        if rng.random() < 0.3:
+            # manifest-extension chains: several commits, some overriding the extensions, with
+            # close/reopen (committed or leaving the patch uncommitted) in between
+            for j in range(rng.randrange(2, 6)):
+                ops += [H.rand_op(rng, ["/a", "/b", "/a/b"], allow_copy=False) for _ in range(rng.randrange(1, 3))]
+                r = rng.random()
+                if r < 0.45:
+                    ops.append(["patch", {"k": j}])
+                elif r < 0.7:
+                    ops.append(["patch"])
+                elif r < 0.85:
+                    ops.append(["reopen", "commit"])
+                if rng.random() < 0.4:
+                    ops += [H.rand_op(rng, ["/a", "/b"], allow_copy=False), ["reopen", "uncommitted"]]
+            cases.append(dict(ops=ops, update=rand_update(rng, rng.randrange(1, 5)), final_exts=rng.choice([None, None, None, {"final": 1}])))
+            continue
         for op in H.rand_history(rng, rng.randrange(3, 22), boundary_p=rng.choice([0.1, 0.25])):
             if op[0] == "patch":
                 r = rng.random()
